@@ -1,7 +1,16 @@
-(** C15 -- fault containment.  Statements only; proofs in Server/NameProofs.v. *)
+(** C15 -- fault containment.  Statements only; proofs in Server/NameProofs.v, Server/FaultProofs.v.
+
+    Proved for all states / requests / tapes: a panic at any backend call index is answered EFAULT
+    (nothing in any handler swallows it); a failing call of a single-call request is answered with
+    ExtractErrno of the error and leaves the fid table alone; every request leaves a state from which
+    the next one (any connection) is served.  NOT proved here (covered by the differential
+    Server/Cases.v [c15_step] on every run, with faults injected at backend call indices of real
+    histories): the error-reply / table-unchanged / obtained-Files-closed clauses for the multi-call
+    requests (walks, attach, rename, remove, clunk with xattr) -- they need the reference-count
+    ledger of C05.  Lock release on abort is the lock model's (C07/C16), not this sequential one. *)
 From Coq Require Import NArith List String Bool.
 From P9V Require Import Base.Str gen.ConstGen gen.HandlerGen Server.State Server.Msg Server.Handlers
-  Server.Summaries Server.NameProofs Server.SummaryProofs.
+  Server.Summaries Server.NameProofs Server.SummaryProofs Server.FaultProofs.
 Import ListNotations.
 Open Scope N_scope.
 
@@ -13,13 +22,46 @@ Theorem C15_panic_reply : forall s c m tape call, names_ok s ->
 Proof. intros s c m tape call Hs Hin. exact (panic_reply s c m tape call Hin Hs). Qed.
 Print Assumptions C15_panic_reply.
 
+(** a failing backend call of a single-call request (open, create, mkdir, symlink, link, mknod,
+    unlinkat, readlink, read, write, getattr, setattr, readdir, fsync, statfs, lock, xattrwalk) is
+    answered with Rlerror (ExtractErrno e): the model's reply after the guards, for every error
+    value e the call may return (EOF for read/readdir excepted) *)
+Theorem C15_error_reply_body : forall c m r t w v e rest,
+  single_call m = true -> w_tape w = AVal v e :: rest -> is_err e = true -> tolerated m e = false ->
+  exists w', body c m r t w = (Ok (inl e), w') /\ st_fids (w_st w') = st_fids (w_st w)
+             /\ w_tape w' = rest /\ List.length (w_log w') = S (List.length (w_log w)).
+Proof. exact body_error. Qed.
+Print Assumptions C15_error_reply_body.
+
+(** requests refused from the session state (unsafe name, unbound fid, Tauth, auth-fid attach) are
+    exact no-ops of the model: same state, no backend call -- nothing a fault could act on *)
+Theorem C15_refused_is_noop : forall s c m k tape,
+  kind_of m = Some k ->
+  (forallb safe_nameb (names_of m) = false \/
+   (forallb safe_nameb (names_of m) = true /\ tlookup (c, fid1_of m) (st_fids s) = None)) ->
+  exists e, step s c m tape = (s, RErr e, [], tape).
+Proof.
+  intros s c m k tape Hk [Hn|[Hn Hu]]; eexists; [eapply unsafe_rejected|eapply unbound_ebadf]; eauto.
+Qed.
+
 (** continued service: whatever happened before (errors, panics), the next request is answered
     from a state satisfying the invariant again -- on any connection *)
 Theorem C15_continued_service : forall h c m tape,
   names_ok (state_of (step (run init_state h) c m tape)).
 Proof. intros. apply step_inv, names_ok_reachable. Qed.
 
-(** tie to the source: every LookupFID is released by a deferred DecRef *)
+(** ExtractErrno: an errno anywhere in the wrap/join tree wins over os.Err* sentinels; wrapping does not matter *)
+Theorem C15_extract_errno_first : forall pre n post,
+  first_linux pre = None -> extract_errno (pre ++ LLinux n :: post) = n.
+Proof. exact extract_linux_first. Qed.
+
+(** tie to the source: connState.handle recovers and answers EFAULT; every LookupFID is released by a deferred DecRef *)
+Theorem C15_source_recover :
+  find (fun e => String.eqb (fst e) "connState.handle") handler_traces =
+  Some ("connState.handle"%string,
+        ["defer:func"; "if:r == nil"; "recover"; "seterr:r:EFAULT"; "endif"; "enddefer";
+         "if:ok"; "delegate:handler.handle(cs)"; "else"; "seterr:r:ENOSYS"; "endif"; "return:"]%string).
+Proof. exact source_recover. Qed.
 Theorem C15_source_lookups_deferred : forallb (fun e => lookups_deferred (snd e)) handler_traces = true.
 Proof. exact HandlerGen_lookups_deferred. Qed.
 
